@@ -530,3 +530,66 @@ func c08Coalesce(c *Ctx, r *Report) {
 	}
 	r.Floor("R08.13", "kinds × coalescing operators", n, 24)
 }
+
+// runC08MathAbsent (R08.4b): math-library functions of two or three arguments
+// that are not dispatched through a disposition table return absent when an
+// argument is absent.
+func runC08MathAbsent(c *Ctx, r *Report, reg []*BIFEntry, rs *RetSum) {
+	r.Rule("R08.4b", "math-library functions of an absent argument return absent, also beyond one argument: for every function of the math class with a fixed arity of two or three whose implementation is not a disposition-table dispatch, evaluating it abstractly with an absent value in one position and numbers in the others gives only absent (or that very argument)")
+	n := 0
+	for _, e := range reg {
+		if !strings.Contains(strings.ToUpper(e.Class), "MATH") {
+			continue
+		}
+		for _, field := range []string{"binaryFunc", "ternaryFunc"} {
+			fobj := e.Funcs[field]
+			if fobj == nil {
+				continue
+			}
+			fn := c.SSAFunc(fobj)
+			if fn == nil || fn.Blocks == nil {
+				continue
+			}
+			viaTable := false
+			for _, b := range fn.Blocks {
+				for _, in := range b.Instrs {
+					if call, ok := in.(*ssa.Call); ok && rs.dispatchTable(call.Call.Value) != nil {
+						viaTable = true
+					}
+				}
+			}
+			if viaTable {
+				continue // covered cell by cell by R08.1–R08.3
+			}
+			for pos := range fn.Params {
+				n++
+				key := fmt.Sprintf("%s: argument %d absent", e.Name, pos+1)
+				ke := NewKindEval(c, rs)
+				args := make([]AV, len(fn.Params))
+				for i := range fn.Params {
+					if i == pos {
+						args[i] = AV{T: 'm', MK: K_ABSENT, Toks: tokset("THEABSENT")}
+					} else {
+						args[i] = AV{T: 'm', MK: K_INT, Toks: tokset("OTHER")}
+					}
+				}
+				res := ke.Eval(fn, args)
+				if res.Bailed || len(res.Results) == 0 {
+					r.Undecided("R08.4b", key, c.Rel(fn.Pos()), "kind evaluation gave up")
+					continue
+				}
+				okAll := true
+				desc := []string{}
+				for _, rv := range res.Results {
+					d := fmt.Sprintf("kind %d %s", rv.MK, rv.Toks)
+					desc = append(desc, d)
+					if !(rv.MK == K_ABSENT || (rv.Toks.Has("THEABSENT") && len(rv.Toks) == 1)) {
+						okAll = false
+					}
+				}
+				r.Check(okAll, "R08.4b", key, c.Rel(fn.Pos()), "returns absent", fmt.Sprintf("%s(…) with argument %d absent returns %s: the reference says functions of an absent argument return absent ($y = %s(…) must not create y=(error) on a record lacking the field)", e.Name, pos+1, strings.Join(desc, " / "), e.Name))
+			}
+		}
+	}
+	r.Floor("R08.4b", "argument positions of binary and ternary math functions", n, 3)
+}
